@@ -304,7 +304,7 @@ def recursive_scenario(shape):
             cfg["fault"] = "none" if root else ch.choose(f"{path}.fault", FAULTS)
             cfg["input"] = ch.choose(f"{path}.input", ["unsigned", "signed"])
             if root:
-                cfg["scripts"] = ch.choose("scripts-from", ["configuration", "environment"])
+                cfg["scripts"] = ch.choose("scripts-from", ["configuration", "environment", "zephyr-base"])
                 cfg["ctx"] = "main"
             elif cfg["mode"] != "unnamed":
                 # a node may name its own KMS context (another key directory in which the same key names hold other keys);
@@ -453,6 +453,18 @@ def run_recursive(tree, ch, agg):
         saved = {k: os.environ.get(k) for k in ("NCS_SUIT_SIGN_SCRIPT", "NCS_SUIT_KMS_SCRIPT", "ZEPHYR_BASE")}
         if tree.get("scripts") == "environment":
             os.environ["NCS_SUIT_SIGN_SCRIPT"], os.environ["NCS_SUIT_KMS_SCRIPT"] = scripts()
+        elif tree.get("scripts") == "zephyr-base":
+            # an SDK tree: $ZEPHYR_BASE/../modules/lib/suit-generator/ncs/{sign_script,basic_kms}.py ; the variable is set now,
+            # long after the tool's modules were imported
+            zb = os.path.join(d, "sdk", "zephyr")
+            nd = os.path.join(d, "sdk", "modules", "lib", "suit-generator", "ncs")
+            os.makedirs(zb)
+            os.makedirs(nd)
+            for src in scripts():
+                os.symlink(src, os.path.join(nd, os.path.basename(src)))
+            os.environ.pop("NCS_SUIT_SIGN_SCRIPT", None)
+            os.environ.pop("NCS_SUIT_KMS_SCRIPT", None)
+            os.environ["ZEPHYR_BASE"] = zb
         try:
             try:
                 cmd_sign.main(sign_subcommand="recursive", input_envelope=i, output_envelope=o, configuration=cf)
